@@ -1,11 +1,88 @@
 (* C09 - Incentive gauges pay pro-rata, on schedule, and never more than they hold.
-   Property theorems only. (first version: the pipeline core; the full set follows) *)
-From Coq Require Import ZArith List Bool.
+   Property theorems only; each is closed by a lemma of C09/Proofs*.v.
+   Model: C09/Model.v (lock-based ByDuration gauges; group, NoLock and synthetic-lock gauges are out of scope).
+   Standing assumption on the chain configuration: [cfg_ok cfg] - every lockable duration exceeds the 1 ms that
+   getDistributeToBaseLocks uses as its cache query (true of every deployed configuration: 1 s, 1 h, 3 h, 7 h, ...).
+   Histories are arbitrary lists of operations from the initial state; a failing operation leaves the state
+   unchanged (baseapp atomicity, DESIGN 1.5). *)
+From Coq Require Import ZArith List Bool Lia.
 Import ListNotations.
-From Osmo Require Import Gen.C09_consts C09.Model C09.Proofs.
+From Osmo Require Import Gen.C09_consts C09.Model C09.Spec C09.ProofsCoins C09.ProofsDistr C09.ProofsLoop
+  C09.ProofsInv C09.ProofsLife C09.Proofs.
 Open Scope Z_scope.
 
-(* finding F6 replayed on the model: a 2-epoch gauge is finished after ONE paying epoch, half of its coins stranded *)
+(* ---- never over-pays: DistributedCoins <= Coins coin-wise, for every gauge, after every history *)
+Theorem C09_never_overpays : forall cfg funds ops g d, cfg_ok cfg ->
+  In g (s_gauges (run cfg (init_state funds) ops)) -> amount_of (g_dist g) d <= amount_of (g_coins g) d.
+Proof. exact never_overpays. Qed.
+Print Assumptions C09_never_overpays.
+
+(* the arithmetic heart of it: the floors of the pro-rata shares of R over E epochs sum to at most R *)
+Theorem C09_sum_of_floors : forall Sm E R ls, Sm = sum_amt ls -> 0 < Sm -> E <> 0 -> 0 <= R -> locks_pos ls ->
+  sum_q (Sm * E) R ls <= R.
+Proof. exact sum_q_le. Qed.
+Print Assumptions C09_sum_of_floors.
+
+(* ---- the module account holds EXACTLY the undistributed remainders of all gauges, hence at least those of the
+   unfinished (upcoming or active) ones *)
+Theorem C09_module_covers_remainder : forall cfg funds ops d, cfg_ok cfg ->
+  let s := run cfg (init_state funds) ops in
+  s_bank s MODULE d = sum_rem (s_gauges s) d /\ unfinished_remainder s d <= s_bank s MODULE d.
+Proof. intros; apply module_covers, reachable_inv; assumption. Qed.
+Print Assumptions C09_module_covers_remainder.
+
+(* ---- lifecycle *)
+(* the three sets partition the gauges at all times *)
+Theorem C09_sets_partition : forall cfg funds ops id, cfg_ok cfg ->
+  let s := run cfg (init_state funds) ops in
+  cnt_all (s_up s) id + cnt_all (s_act s) id + cnt_all (s_fin s) id = if in_range s id then 1 else 0.
+Proof. intros; apply I_part, reachable_inv; assumption. Qed.
+Print Assumptions C09_sets_partition.
+
+(* active from the first epoch end with t >= start: such a gauge takes part in this very distribution and is
+   active or finished afterwards; before its start time it stays upcoming and untouched *)
+Theorem C09_activation : forall cfg funds ops thr s' g, cfg_ok cfg ->
+  let s := run cfg (init_state funds) ops in
+  after_epoch_end cfg thr s = Ok s' -> In g (s_gauges s) -> In (g_id g) (refs_all (s_up s)) ->
+  (g_start g <= s_now s -> takes_part s g /\ ~ In (g_id g) (refs_all (s_up s')) /\
+                           (In (g_id g) (refs_all (s_act s')) \/ In (g_id g) (refs_all (s_fin s')))) /\
+  (s_now s < g_start g -> In (g_id g) (refs_all (s_up s')) /\ get_gauge (s_gauges s') (g_id g) = Some g).
+Proof. intros; eapply activation; eauto; apply reachable_inv; assumption. Qed.
+Print Assumptions C09_activation.
+
+(* finished gauges pay nothing (they are not even written) and stay finished *)
+Theorem C09_finished_pay_nothing : forall cfg funds ops thr s' g, cfg_ok cfg ->
+  let s := run cfg (init_state funds) ops in
+  after_epoch_end cfg thr s = Ok s' -> In g (s_gauges s) -> In (g_id g) (refs_all (s_fin s)) ->
+  get_gauge (s_gauges s') (g_id g) = Some g /\ In (g_id g) (refs_all (s_fin s')).
+Proof. intros; eapply finished_pays_nothing; eauto; apply reachable_inv; assumption. Qed.
+Print Assumptions C09_finished_pay_nothing.
+
+(* a gauge that does not take part is untouched; one that takes part is run through distributeInternal on its
+   pre-epoch value with exactly the qualifying locks, and only its bookkeeping fields change *)
+Theorem C09_epoch_gauge_result : forall cfg funds ops thr s' g, cfg_ok cfg ->
+  let s := run cfg (init_state funds) ops in
+  after_epoch_end cfg thr s = Ok s' -> In g (s_gauges s) ->
+  (~ takes_part s g -> get_gauge (s_gauges s') (g_id g) = Some g) /\
+  (takes_part s g -> exists di0 cache0 w di1 cache1,
+        distribute_internal cfg thr g (elig (s_locks s) g) di0 cache0 = Ok (w, di1, cache1) /\
+        get_gauge (s_gauges s') (g_id g) = Some (match w with Some g' => g' | None => g end)).
+Proof. intros; eapply epoch_gauge_result; eauto; apply reachable_inv; assumption. Qed.
+Print Assumptions C09_epoch_gauge_result.
+
+(* ---- the finishing rule *)
+(* FULL statement of the property's clause "non-perpetual gauges finish after exactly their number of paying
+   epochs": in every reachable state a finished non-perpetual gauge has FilledEpochs = NumEpochsPaidOver. *)
+Definition C09_finish_full : Prop :=
+  forall cfg funds ops, cfg_ok cfg -> FinExact (run cfg (init_state funds) ops).
+
+(* It is FALSE of the faithful model (finding F6): checkFinishDistribution uses the pre-distribution FilledEpochs. *)
+Theorem C09_finish_refuted : ~ C09_finish_full.
+Proof. intros H; exact (finexact_refuted (H w_cfg w_funds w_ops w_cfg_ok)). Qed.
+Print Assumptions C09_finish_refuted.
+
+(* the witness in numbers: 10^10 over 2 epochs, one lock at epoch 1, withdrawn before epoch 2 => finished 1/2,
+   5*10^9 paid, 5*10^9 left in the module for ever; and a 1-epoch gauge nobody qualifies for => finished 0/1 *)
 Theorem C09_finish_witness :
   refs_all (s_fin w_final) = [1] /\ refs_all (s_act w_final) = [] /\
   map g_filled (s_gauges w_final) = [1] /\ map g_n (s_gauges w_final) = [2] /\
@@ -13,3 +90,118 @@ Theorem C09_finish_witness :
   s_bank w_final MODULE 0 = 5 * 10 ^ 9.
 Proof. exact witness_F6. Qed.
 Print Assumptions C09_finish_witness.
+Theorem C09_finish_witness_one_epoch :
+  refs_all (s_fin w6b_final) = [1] /\ map g_filled (s_gauges w6b_final) = [0] /\ s_bank w6b_final MODULE 0 = 5 * 10 ^ 9.
+Proof. exact witness_F6b. Qed.
+Print Assumptions C09_finish_witness_one_epoch.
+
+(* CONDITIONAL theorem: it holds when at every epoch end every non-perpetual gauge that takes part has a
+   qualifying lock (and lock sums fit 256 bits, as the SDK's integers guarantee) *)
+Theorem C09_finishes_after_exactly_N_paying_epochs : forall cfg funds ops, cfg_ok cfg ->
+  all_qualified cfg (init_state funds) ops -> FinExact (run cfg (init_state funds) ops).
+Proof. exact finishes_after_exactly_N. Qed.
+Print Assumptions C09_finishes_after_exactly_N_paying_epochs.
+
+(* and in every reachable state, unconditionally: an upcoming non-perpetual gauge has paid 0 epochs, an active one
+   fewer than N, a finished one at most N; perpetual gauges never finish *)
+Theorem C09_filled_bounds : forall cfg funds ops g, cfg_ok cfg ->
+  let s := run cfg (init_state funds) ops in In g (s_gauges s) -> fill_ok s g.
+Proof.
+  intros cfg funds ops g Hc s Hi. pose proof (I_fill _ (reachable_inv cfg funds ops Hc)) as F.
+  rewrite Forall_forall in F. exact (F g Hi).
+Qed.
+Print Assumptions C09_filled_bounds.
+
+(* one epoch end, exactly: FilledEpochs grows by one iff a lock qualified; the gauge is finished iff N <= filled_before + 1 *)
+Theorem C09_finish_step : forall cfg funds ops thr s' g, cfg_ok cfg ->
+  let s := run cfg (init_state funds) ops in
+  after_epoch_end cfg thr s = Ok s' ->
+  takes_part s g -> g_perp g = false -> sum_locks (elig (s_locks s) g) < 2 ^ max_int_bits ->
+  exists g', get_gauge (s_gauges s') (g_id g) = Some g' /\ g_n g' = g_n g /\ g_perp g' = false /\
+    g_filled g < g_n g /\
+    (elig (s_locks s) g <> [] -> g_filled g' = g_filled g + 1) /\
+    (elig (s_locks s) g = [] -> g' = g) /\
+    (In (g_id g) (refs_all (s_fin s')) <-> g_n g <= g_filled g + 1) /\
+    (In (g_id g) (refs_all (s_act s')) <-> g_filled g + 1 < g_n g).
+Proof. intros; eapply finish_step; eauto; apply reachable_inv; assumption. Qed.
+Print Assumptions C09_finish_step.
+
+(* EXACT characterisation of F6: a gauge ends an epoch finished with unpaid epochs iff no lock qualified at that
+   epoch end and it had exactly one epoch left *)
+Theorem C09_finish_characterisation : forall cfg funds ops thr s' g, cfg_ok cfg ->
+  let s := run cfg (init_state funds) ops in
+  after_epoch_end cfg thr s = Ok s' ->
+  takes_part s g -> g_perp g = false -> sum_locks (elig (s_locks s) g) < 2 ^ max_int_bits ->
+  exists g', get_gauge (s_gauges s') (g_id g) = Some g' /\
+    ((In (g_id g) (refs_all (s_fin s')) /\ g_filled g' < g_n g')
+     <-> (elig (s_locks s) g = [] /\ g_filled g = g_n g - 1)).
+Proof. intros; eapply finish_characterisation; eauto; apply reachable_inv; assumption. Qed.
+Print Assumptions C09_finish_characterisation.
+
+(* ---- per-epoch shares *)
+(* FULL statement: at every successful epoch end every address is credited exactly the floors of the pro-rata shares
+   of the locks whose reward receiver it is (nothing for amounts not worth the minimum) *)
+Definition C09_share_full : Prop :=
+  forall cfg funds ops thr s', cfg_ok cfg -> thr_positive thr ->
+  let s := run cfg (init_state funds) ops in
+  after_epoch_end cfg thr s = Ok s' ->
+  forall a d, a <> MODULE -> s_bank s' a d - s_bank s a d = ideal_credit cfg thr s a d.
+
+(* It is FALSE of the faithful model, for two independent reasons. *)
+(* finding C09-F2: skipSpamGaugeDistribute's hard-coded filter (one remaining coin of at most 100 units) *)
+Theorem C09_share_refuted_small_gauge :
+  after_epoch_end w_cfg w_thr w2_pre = Ok (epoch_of w_cfg w_thr w2_pre) /\
+  s_bank (epoch_of w_cfg w_thr w2_pre) 1 0 - s_bank w2_pre 1 0 = 0 /\
+  ideal_credit w_cfg w_thr w2_pre 1 0 = 100 /\
+  map g_filled (s_gauges (epoch_of w_cfg w_thr w2_pre)) = [1] /\ refs_all (s_fin (epoch_of w_cfg w_thr w2_pre)) = [1].
+Proof. exact witness_F2. Qed.
+Print Assumptions C09_share_refuted_small_gauge.
+
+(* finding C09-F4: distributionInfo is keyed by the lock OWNER and keeps the receiver of the owner's first lock *)
+Theorem C09_share_refuted_receiver :
+  after_epoch_end w_cfg w_thr w4_pre = Ok (epoch_of w_cfg w_thr w4_pre) /\
+  s_bank (epoch_of w_cfg w_thr w4_pre) 2 0 - s_bank w4_pre 2 0 = 1000 /\
+  s_bank (epoch_of w_cfg w_thr w4_pre) 3 0 - s_bank w4_pre 3 0 = 0 /\
+  ideal_credit w_cfg w_thr w4_pre 2 0 = 250 /\ ideal_credit w_cfg w_thr w4_pre 3 0 = 750.
+Proof. exact witness_F4. Qed.
+Print Assumptions C09_share_refuted_receiver.
+
+Theorem C09_share_refuted : ~ C09_share_full.
+Proof.
+  intros H. destruct witness_F2 as (E & D & I & _).
+  specialize (H w_cfg w_funds w2_ops w_thr (epoch_of w_cfg w_thr w2_pre) w_cfg_ok w_thr_positive E 1 0 ltac:(unfold MODULE; lia)).
+  fold w2_pre in H.
+  rewrite D, I in H. clear - H. discriminate H.
+Qed.
+Print Assumptions C09_share_refuted.
+
+(* ---- every epoch end distributes *)
+(* FULL statement implied by "at each epoch an active gauge pays every qualifying lock": the epoch end does not fail *)
+Definition C09_epoch_succeeds_full : Prop :=
+  forall cfg funds ops thr, cfg_ok cfg -> thr_positive thr ->
+  exists s', after_epoch_end cfg thr (run cfg (init_state funds) ops) = Ok s'.
+
+(* finding C09-F3: an error of the min-value quote for ONE reward denom aborts the distribution of ALL gauges *)
+Theorem C09_epoch_aborted_witness :
+  after_epoch_end w_cfg w3_thr w3_pre = Err E_EPOCH /\ 0 < ideal_credit w_cfg w3_thr w3_pre 1 0.
+Proof. exact witness_F3. Qed.
+Print Assumptions C09_epoch_aborted_witness.
+
+(* ---- non-vacuity: a history that meets the hypothesis of the conditional finishing theorem, on which the gauge
+   really pays twice and finishes with 2 of 2 epochs *)
+Definition nv_ops : list op :=
+  [ OGauge 0 false 0 3600000 [(0, 10 ^ 10)] 0 2;
+    OLock 1 0 1000 3600000; OLock 2 0 3000 10800000;
+    OEpoch 86400000 [TVal 1; TNoRoute; TNoRoute; TNoRoute; TNoRoute];
+    OUnlock 1 0;
+    OEpoch 86400000 [TVal 1; TNoRoute; TNoRoute; TNoRoute; TNoRoute] ].
+Example C09_nonvacuous :
+  cfg_ok w_cfg /\ all_qualified w_cfg (init_state w_funds) nv_ops /\
+  let s := run w_cfg (init_state w_funds) nv_ops in
+  refs_all (s_fin s) = [1] /\ map g_filled (s_gauges s) = [2] /\
+  map (fun g => amount_of (g_dist g) 0) (s_gauges s) = [10 ^ 10] /\
+  s_bank s 1 0 - w_funds 1 0 = 2500000000 /\ s_bank s 2 0 - w_funds 2 0 = 7500000000.
+Proof.
+  split; [exact w_cfg_ok|]. split; [apply all_qualified_b_spec; vm_compute; reflexivity|].
+  vm_compute. repeat split; reflexivity.
+Qed.
